@@ -1,4 +1,4 @@
-use anyhow::Result;
+use anyhow::{bail, Result};
 use std::fmt::Debug;
 use toktrie::{Recognizer, SimpleVob, TokTrie};
 
@@ -84,6 +84,7 @@ impl Recognizer for LexerPrecomputer<'_> {
 
 impl Lexer {
     pub fn from(spec: &LexerSpec, limits: &mut ParserLimits, dbg: bool) -> Result<Self> {
+        let fuel0 = limits.initial_lexer_fuel;
         let mut dfa = spec.to_regex_vec(limits)?;
 
         if dbg {
@@ -92,11 +93,20 @@ impl Lexer {
 
         let s0 = dfa.initial_state(&spec.all_lexemes());
         let mut allowed_first_byte = SimpleVob::alloc(256);
+        // these transitions build derivatives and check their relevance, so they need a limit too
+        dfa.set_fuel(fuel0);
         for i in 0..=255 {
             if !dfa.transition(s0, i).is_dead() {
                 allowed_first_byte.allow_token(i as u32);
             }
         }
+        if dfa.has_error() {
+            bail!(
+                "fuel exhausted when computing first bytes of lexemes ({})",
+                fuel0
+            );
+        }
+        dfa.set_fuel(u64::MAX);
 
         let lex = Lexer {
             dfa,
